@@ -74,6 +74,50 @@ pub fn capacity_grid<G: AffineRepr + 'static>(shape: &Shape, seed: u64, vals: im
         };
         out.push((format!("batch_verify, capacity {} vs padded size {}: {:?}", cap, pad, r), ok));
     }
+    // generator sets with a history: a smaller request is a no-op, regrowth continues the same chains; the
+    // outcome and the proof bytes are those of a freshly built set of the final capacity
+    {
+        use ark_serialize::CanonicalSerialize;
+        let enc = |p: &ark_bulletproofs::r1cs::R1CSProof<G>| -> Vec<u8> {
+            let mut b = vec![];
+            p.serialize_compressed(&mut b).unwrap();
+            b
+        };
+        let histories: Vec<(String, BulletproofGens<G>, usize)> = {
+            let mut v = vec![];
+            let mut a = BulletproofGens::<G>::new(pad + 2, 1);
+            a.increase_capacity(pad.saturating_sub(1));
+            v.push((format!("new({}); increase_capacity({})", pad + 2, pad.saturating_sub(1)), a, pad + 2));
+            let mut b = BulletproofGens::<G>::new(pad, 1);
+            b.increase_capacity(pad / 2);
+            b.increase_capacity(2 * pad + 1);
+            v.push((format!("new({}); increase_capacity({}); increase_capacity({})", pad, pad / 2, 2 * pad + 1), b, 2 * pad + 1));
+            let mut c = BulletproofGens::<G>::new(1, 1);
+            c.increase_capacity(pad + 1);
+            v.push((format!("new(1); increase_capacity({})", pad + 1), c, (pad + 1).max(1)));
+            v
+        };
+        for (name, gens, final_cap) in histories {
+            let fresh = BulletproofGens::<G>::new(final_cap, 1);
+            let shr_h = new_shared::<G>(shape, &Default::default(), vals());
+            let ph = catch(|| prove_shape(shape, &shr_h, &pc, &gens, seed).0);
+            let shr_f = new_shared::<G>(shape, &Default::default(), vals());
+            let pf = catch(|| prove_shape(shape, &shr_f, &pc, &fresh, seed).0);
+            let same = match (&ph, &pf) {
+                (Ok(Ok(a)), Ok(Ok(b))) => enc(a) == enc(b),
+                _ => false,
+            };
+            out.push((format!("prove with generators built by {} gives the proof of a fresh set of capacity {}", name, final_cap), same));
+            if let Ok(Ok(p)) = &pf {
+                rewind_for_verifier(&shr_f);
+                let r = catch(|| {
+                    let mut vt = new_verifier_transcript(shape);
+                    build_verifier(shape, &shr_f, &mut vt).verify(p, &pc, &gens)
+                });
+                out.push((format!("verify with generators built by {}: {:?}", name, r), matches!(r, Ok(Ok(())))));
+            }
+        }
+    }
     out
 }
 
